@@ -120,13 +120,16 @@ def _update_aligned_axes(drop_aligned_axes_indices, aligned_axes, first_key):
         new_aligned_axes = []
         for key in aligned_axes.keys():
             cube_aligned_axes = np.array(aligned_axes[key])
-            for drop_axis_index in drop_aligned_axes_indices:
+            # The indices are adjusted in place as axes are removed,
+            # so each member must start from its own copy.
+            drop_indices = np.array(drop_aligned_axes_indices)
+            for drop_axis_index in drop_indices:
                 drop_axis = cube_aligned_axes[drop_axis_index]
                 cube_aligned_axes = np.delete(cube_aligned_axes, drop_axis_index)
                 w = np.where(cube_aligned_axes > drop_axis)
                 cube_aligned_axes[w] -= 1
-                w = np.where(drop_aligned_axes_indices > drop_axis_index)
-                drop_aligned_axes_indices[w] -= 1
+                w = np.where(drop_indices > drop_axis_index)
+                drop_indices[w] -= 1
             new_aligned_axes.append(tuple(cube_aligned_axes))
         new_aligned_axes = tuple(new_aligned_axes)
 
